@@ -31,6 +31,8 @@ pub struct Entry {
     pub feed: fn() -> (Vec<u8>, Vec<u8>),
     pub hash: fn() -> (u64, u64),
     pub layout: fn() -> String,
+    /// (`IS_ZERO_COPY`, `ZERO_COPY_MISMATCH`) of the type
+    pub consts: fn() -> (bool, bool),
     /// value term -> schema rows and bytes of `serialize_with_schema`, `debug`/`to_csv` outcomes
     pub schema: fn(&Term) -> String,
     /// value term, loader, flags -> stored file, loaded structure, backing region
@@ -235,6 +237,7 @@ where
         feed: feed_generic::<T>,
         hash: hash_generic::<T>,
         layout: || "deep".to_string(),
+        consts: || (<T as SerializeInner>::IS_ZERO_COPY, <T as SerializeInner>::ZERO_COPY_MISMATCH),
         schema: |t| match catch(|| T::from_term(t)) {
             Some(v) => schema_generic(&v),
             None => "badterm".into(),
